@@ -162,7 +162,18 @@ def build() -> Check:
     for m in mergers:
         if any(isinstance(n, ast.Attribute) and n.attr in TREE_ATTRS for n in ast.walk(sc.methods[m].node)):
             fed = True
-    reads_ops = any(isinstance(n, ast.Attribute) and n.attr == "operations" for f in (fn, mo) for n in ast.walk(f.node))
+    from sa.common import self_method_calls
+    guard_fns, todo = {}, [fn]
+    while todo:
+        f = todo.pop()
+        if f.fq in guard_fns:
+            continue
+        guard_fns[f.fq] = f
+        for _, mname in self_method_calls(f.node):
+            if mname in sc.methods:
+                todo.append(sc.methods[mname])
+    reads_ops = any(isinstance(n, ast.Attribute) and n.attr == "operations" and isinstance(n.value, ast.Name) and n.value.id == "self"
+                    for f in guard_fns.values() for n in ast.walk(f.node))
     ck.ob("R4.tree-knows-history", c_cc, fed or reads_ops,
           f"the children map is built only from this invocation's updates: neither {sorted(mergers)} write it nor does the guard/marking read self.operations, "
           "so operations recorded by an earlier invocation under a context that completes now are never marked")
